@@ -1,5 +1,10 @@
 import GeoVerif.Model.Rhumb
+import GeoVerif.Model.RhumbSeries
+import GeoVerif.Model.RhumbExact
 import GeoVerif.Proofs.Rhumb
+import GeoVerif.Proofs.RhumbSeries
+import GeoVerif.Proofs.RhumbExact
+import Mathlib.Analysis.Real.Pi.Bounds
 import GeoVerif.Gen.RhumbArea
 import GeoVerif.Proofs.RhumbCert
 /-!
@@ -10,7 +15,7 @@ All statements are about the definitions of `Model/Rhumb.lean` — the same term
 Helper lemmas are in `Proofs/Rhumb.lean`.
 -/
 namespace GeoVerif.Props.C09
-open GeoVerif GeoVerif.Rhumb GeoVerif.Proofs.Rhumb Real
+open GeoVerif GeoVerif.Rhumb GeoVerif.RhumbS GeoVerif.RhumbX GeoVerif.Proofs.Rhumb GeoVerif.Proofs.RhumbSeries GeoVerif.Proofs.RhumbExact Real
 
 /-! ### the divided-difference helpers are divided differences (every branch), with the confluent value at `x = y` -/
 
@@ -129,6 +134,254 @@ theorem rhumb_inverse_shortest (lon1 lon2 lon12 : ℝ) (K : InvKernels ℝ) (hc 
   rhumb_inverse_shortest' lon1 lon2 lon12 K hc hne
 
 example : DiffContract 10 (-170) (-180) := ⟨by norm_num, ⟨0, by norm_num⟩⟩
+
+
+/-! ## Deepening round: the whole series path (`Model/RhumbSeries.lean`) and the exact path (`Model/RhumbExact.lean`)
+
+All statements below are about the definitions the driver executes in the running-error arithmetic against the implementation
+(ops `rh_const`, `rh_inv`, `rh_pos`, `rh_dconv`, `rh_msx`, `rh_de`, `rh_drect`, `rh_xinv`, `rh_xpos`), read at `ℝ`, and hold for **every**
+coefficient list (in particular for the tables re-extracted from `AuxLatitude.cpp` / `Rhumb.cpp` on this run).
+`serA c ζ = ζ + Σ_k c_k sin((2k+2)ζ)` is the series auxiliary latitude with the sum taken as the code's Clenshaw sum;
+`psiOf χ = asinh(tan χ)`; `p0Of χ = asinh(h(tan χ))`; `pOf P β = Σ_l P_l cos((2l+2)β)` (Clenshaw). -/
+
+/-! ### `AuxLatitude::Convert` (series) and `DAuxLatitude::DConvert` -/
+
+/-- `Convert(auxin, auxout, ζ, exact = false)` on any representative `r (sin ζ, cos ζ)`, `r > 0`, of the angle `ζ` returns the unit point of
+    the series latitude `η = ζ + Σ c_k sin((2k+2)ζ)` — provided the correction is below a right angle (the code skips the rotation when
+    `tan d = 0`, which is right only for `d = 0`) -/
+theorem convert_is_series (c : List ℝ) (r ζ : ℝ) (hr : 0 < r) (hd : |clenshaw true (sin ζ) (cos ζ) c| < π / 2) :
+    convertS c (r * sin ζ, r * cos ζ) = (sin (serA c ζ), cos (serA c ζ)) := convertS_angle c r ζ hr hd
+
+example : |clenshaw true (sin (1:ℝ)) (cos 1) []| < π / 2 := by simp [clenshaw, clen, lit0]; positivity
+
+/-- **`DConvert` is the divided difference of `Convert`**: for angles `ζ₁, ζ₂ ∈ (−π, π]` given by any representatives,
+    `DConvert · (ζ₂ − ζ₁) = η(ζ₂) − η(ζ₁)` (also when `ζ₂ − ζ₁ = 1`, where `DClenshaw` switches to its plain-difference reading, and
+    trivially when `ζ₁ = ζ₂`) — the lift of `dclenshaw_dd` to the full function (normalisation, `radians()`, `1 +`) -/
+theorem DConvert_dd (c : List ℝ) (r1 r2 z1 z2 : ℝ) (hr1 : 0 < r1) (hr2 : 0 < r2) (h1 : -π < z1 ∧ z1 ≤ π) (h2 : -π < z2 ∧ z2 ≤ π) :
+    dconvert c (r1 * sin z1, r1 * cos z1) (r2 * sin z2, r2 * cos z2) * (z2 - z1) = serA c z2 - serA c z1 :=
+  dconvert_dd' c r1 r2 z1 z2 hr1 hr2 h1 h2
+
+example : (0:ℝ) < 2 ∧ (-π < (1:ℝ) ∧ (1:ℝ) ≤ π) := ⟨by norm_num, by linarith [Real.pi_gt_three], by linarith [Real.pi_gt_three]⟩
+
+/-- **confluent case**: `DConvert(ζ, ζ)` is the derivative of the series latitude at `ζ` -/
+theorem DConvert_confluent (c : List ℝ) (r1 r2 z : ℝ) (hr1 : 0 < r1) (hr2 : 0 < r2) :
+    HasDerivAt (serA c) (dconvert c (r1 * sin z, r1 * cos z) (r2 * sin z, r2 * cos z)) z := dconvert_confluent' c r1 r2 z hr1 hr2
+
+/-- `DClenshaw` on the angles `z`, `z + Δ` with `Delta = Δ`: the divided difference for **every** `Δ` (no exception at `Δ = 1`) … -/
+theorem dclenshaw_dd_all (sinp : Bool) (z Δ : ℝ) (cs : List ℝ) :
+    DClenshaw sinp Δ (sin z) (cos z) (sin (z + Δ)) (cos (z + Δ)) cs * Δ
+      = clenshaw sinp (sin (z + Δ)) (cos (z + Δ)) cs - clenshaw sinp (sin z) (cos z) cs := dclenshaw_angle sinp z Δ cs
+
+/-- … and for `Δ = 0` the derivative of the Clenshaw sum (sine and cosine series) -/
+theorem dclenshaw_confluent (sinp : Bool) (z : ℝ) (cs : List ℝ) :
+    HasDerivAt (fun x => clenshaw sinp (sin x) (cos x) cs) (DClenshaw sinp 0 (sin z) (cos z) (sin z) (cos z) cs) z :=
+  dclenshaw_hasDerivAt sinp z cs
+
+/-! ### `Rhumb::GenInverse` (series): the exact rhumb inverse of the series auxiliary latitudes -/
+
+/-- `dmu/dpsi` of both series solvers: `dmudpsi · (ψ₂ − ψ₁) = μ(χ₂) − μ(χ₁)` for conformal latitudes `χ₁, χ₂ ∈ (−π/2, π/2)`,
+    `μ = χ + Σ c_k sin((2k+2)χ)` the χ→μ series -/
+theorem dmudpsi_series_dd (P : Params ℝ) (x y : ℝ) (hx : |x| < π / 2) (hy : |y| < π / 2) :
+    dmudpsiS P (sin x, cos x) (sin y, cos y) * (psiOf y - psiOf x) = serA P.cMuChi y - serA P.cMuChi x := dmudpsiS_dd P x y hx hy
+
+/-- on a parallel: `dmudpsi = μ′(χ) cos χ` -/
+theorem dmudpsi_series_parallel (P : Params ℝ) (x : ℝ) (hx : |x| < π / 2) :
+    ∃ m' : ℝ, HasDerivAt (serA P.cMuChi) m' x ∧ dmudpsiS P (sin x, cos x) (sin x, cos x) = m' * cos x := dmudpsiS_confluent P x hx
+
+example : |(1:ℝ)| < π / 2 := by rw [abs_of_pos one_pos]; linarith [Real.pi_gt_three]
+
+/- `ChiOK P φ` (Proofs/RhumbSeries.lean): the φ→χ correction at `φ` is below a right angle and `|χ(φ)| < π/2` (not a pole). -/
+
+/-- **the series rhumb inverse is the exact rhumb inverse of the series auxiliary latitudes**: with `χᵢ = χ(φᵢ)` (φ→χ series),
+    `ψᵢ = asinh tan χᵢ`, `λ₁₂ = lon12 · π/180`, `μ` the χ→μ series and `R = _rm`, the triple `(s12, azi12, S12)` returned by `GenInverse`
+    satisfies: `azi12` is the direction (degrees, `(−180, 180]`) of `(ψ₂ − ψ₁, λ₁₂)` on the Mercator chart — so `tan azi12 = λ₁₂/(ψ₂ − ψ₁)` with
+    the right quadrant; `s12 cos azi12 = R (μ(χ₂) − μ(χ₁))` — the series meridian-arc difference over `cos azi12`;
+    `s12 sin azi12 = λ₁₂ · dmudpsi · R`; `s12 = hypot(λ₁₂, ψ₁₂) · dmudpsi · R` (on a parallel `dmudpsi = μ′(χ) cos χ`, `dmudpsi_series_parallel`:
+    the parallel-circle length); `S12 = _c2 · lon12 · MeanSinXi` -/
+theorem geninverse_series (P : Params ℝ) (φ1 φ2 lon12 : ℝ) (h1 : ChiOK P φ1) (h2 : ChiOK P φ2) :
+    let r := genInverseS P (sin φ1, cos φ1) (sin φ2, cos φ2) lon12
+    let χ1 := serA P.cChiPhi φ1
+    let χ2 := serA P.cChiPhi φ2
+    let lam12 := lon12 * (π / 180)
+    let psi12 := psiOf χ2 - psiOf χ1
+    let D := dmudpsiS P (sin χ1, cos χ1) (sin χ2, cos χ2)
+    (¬ (psi12 = 0 ∧ lam12 = 0) → r.2.1 = GeoVerif.Props.C16.argd lam12 psi12) ∧
+    r.1 * cos (r.2.1 * π / 180) = P.rm * (serA P.cMuChi χ2 - serA P.cMuChi χ1) ∧
+    r.1 * sin (r.2.1 * π / 180) = lam12 * D * P.rm ∧
+    r.1 = Real.sqrt (lam12 ^ 2 + psi12 ^ 2) * D * P.rm ∧
+    r.2.2 = P.c2 * lon12 * meanSinXi P (sin χ1, cos χ1) (sin χ2, cos χ2) :=
+  genInverseS_identities P φ1 φ2 lon12 h1 h2
+
+/-- the sphere (`sphereParams`: all coefficient lists empty) satisfies the hypotheses at every latitude short of the poles -/
+example : ChiOK sphereParams 1 :=
+  ⟨by show |clenshaw true (sin 1) (cos 1) []| < π / 2; rw [sphere_clenshaw]; simp; positivity,
+   by show |serA [] 1| < π / 2; rw [sphere_serA, abs_of_pos one_pos]; linarith [Real.pi_gt_three]⟩
+
+/-! ### `Rhumb::MeanSinXi` (series): the coded area formula is the Clenshaw divided difference of the series -/
+
+/- `BetaOK P χ`: the two-step conversion χ → φ → β of `MeanSinXi` stays on the principal branch; `betaVia P χ = B(Φ(χ))`. -/
+
+/-- for conformal latitudes `χx, χy ∈ (−π/2, π/2)`:
+    `MeanSinXi · (ψy − ψx) = (p₀(χy) − p₀(χx)) + Dp · (β̃(χy) − β̃(χx))`, where `Dp` is the coded divided difference of the area series,
+    `Dp · (βy − βx) = p(βy) − p(βx)` with `β = B(Φ(χ))` (χ→φ then φ→β series) and `β̃` is the direct χ→β series used by `DConvert`.
+    Hence `S12 = _c2 · lon12 · MeanSinXi` is `_c2 · lon12 · [Δp₀ + Δp]/Δψ` as soon as the two routes to β agree (`meansinxi_series_composed`) —
+    they agree modulo `n⁷` for the extracted tables (C15 *Gen* certificate `aux_compose`), and `p` is the series certified by `rhumb_area_table`. -/
+theorem meansinxi_series (P : Params ℝ) (x y : ℝ) (hx : |x| < π / 2) (hy : |y| < π / 2) (bx : BetaOK P x) (by' : BetaOK P y) :
+    meanSinXi P (sin x, cos x) (sin y, cos y) * (psiOf y - psiOf x) =
+      (p0Of y - p0Of x) +
+      DClenshaw false (betaVia P y - betaVia P x) (sin (betaVia P x)) (cos (betaVia P x)) (sin (betaVia P y)) (cos (betaVia P y)) P.pP
+        * (serA P.cBetaChi y - serA P.cBetaChi x) ∧
+    DClenshaw false (betaVia P y - betaVia P x) (sin (betaVia P x)) (cos (betaVia P x)) (sin (betaVia P y)) (cos (betaVia P y)) P.pP
+        * (betaVia P y - betaVia P x) = pOf P.pP (betaVia P y) - pOf P.pP (betaVia P x) :=
+  ⟨meanSinXi_series' P x y hx hy bx by', dp_dd P.pP _ _⟩
+
+/-- with the composition property as hypothesis (χ→β series = φ→β series after χ→φ series at both points; *Gen* `aux_compose` modulo `n⁷`):
+    `MeanSinXi · (ψy − ψx) = [p₀ + p∘β](χy) − [p₀ + p∘β](χx)` — the mean of `sin ξ` over the isometric latitude when `p₀ + p` is the area integral -/
+theorem meansinxi_series_composed (P : Params ℝ) (x y : ℝ) (hx : |x| < π / 2) (hy : |y| < π / 2) (bx : BetaOK P x) (by' : BetaOK P y)
+    (cx : serA P.cBetaChi x = betaVia P x) (cy : serA P.cBetaChi y = betaVia P y) :
+    meanSinXi P (sin x, cos x) (sin y, cos y) * (psiOf y - psiOf x) =
+      (p0Of y + pOf P.pP (betaVia P y)) - (p0Of x + pOf P.pP (betaVia P x)) := by
+  obtain ⟨h1, h2⟩ := meansinxi_series P x y hx hy bx by'
+  rw [h1, cx, cy, h2]; ring
+
+example : BetaOK sphereParams 1 :=
+  ⟨by show |clenshaw true (sin 1) (cos 1) []| < π / 2; rw [sphere_clenshaw]; simp; positivity,
+   by show |clenshaw true _ _ []| < π / 2; rw [sphere_clenshaw]; simp; positivity,
+   by show -π < serA [] (serA [] 1) ∧ serA [] (serA [] 1) ≤ π
+      rw [sphere_serA, sphere_serA]; constructor <;> linarith [Real.pi_gt_three]⟩
+
+/-- on a parallel: `MeanSinXi(χ, χ) = sin χ + p′(β) β̃′(χ) cos χ` -/
+theorem meansinxi_series_parallel (P : Params ℝ) (x : ℝ) (hx : |x| < π / 2) (bx : BetaOK P x) :
+    ∃ p' b' : ℝ, HasDerivAt (pOf P.pP) p' (betaVia P x) ∧ HasDerivAt (serA P.cBetaChi) b' x ∧
+      meanSinXi P (sin x, cos x) (sin x, cos x) = sin x + p' * (b' * cos x) := meanSinXi_confluent' P x hx bx
+
+/-! ### `GenDirect ∘ GenInverse` (series) -/
+
+/- `ClosureHyp P φ₁ φ₂` (Proofs/RhumbSeries.lean): principal-branch conditions, `_rm ≠ 0`, `dmudpsi ≠ 0`, and the two facts the series satisfy
+   only modulo `n⁷`: composition `μ_χ(χ(φᵢ)) = μ(φᵢ)` and reversion `φ_μ(μ(φ₂)) = φ₂` (C15 *Gen* certificates `aux_compose`, `aux_revert`). -/
+
+/-- **closure**: feed the inverse solution `(s12, azi12)` of `(φ₁, φ₂, lon12)` to the line object at `φ₁` with the exact sine and cosine of
+    `azi12`: `GenPosition` takes the regular branch (`|mu2| ≤ 90`, `mu2 = μ(φ₂)` in degrees), returns the point `φ₂`, the longitude
+    difference `lon12` and the same `S12` — under the composition and reversion hypotheses, which is where the truncation of the series enters -/
+theorem gendirect_geninverse_series (P : Params ℝ) (φ1 φ2 lon12 eps2 : ℝ) (H : ClosureHyp P φ1 φ2) :
+    let inv := genInverseS P (sin φ1, cos φ1) (sin φ2, cos φ2) lon12
+    let L := lineInit P (sin φ1, cos φ1) (sin (inv.2.1 * π / 180)) (cos (inv.2.1 * π / 180)) eps2
+    let rm2 := positionMuS P L inv.1
+    let o := genPositionReg P L rm2.1 rm2.2
+    rm2.2 = serA P.cMuPhi φ2 * 180 / π ∧ |rm2.2| ≤ 90 ∧ o.phi2 = (sin φ2, cos φ2) ∧ o.lon2x = lon12 ∧ o.S12 = inv.2.2 :=
+  direct_inverse_closure' P φ1 φ2 lon12 eps2 H
+
+/-- the hypotheses are satisfiable: the sphere, both points on the parallel of latitude ½ rad -/
+example : ClosureHyp sphereParams (1 / 2) (1 / 2) := by
+  have hpi := Real.pi_gt_three
+  have h12 : |((1:ℝ) / 2)| < π / 2 := by rw [abs_of_pos (by norm_num)]; linarith
+  have c0 : ∀ s c : ℝ, |clenshaw true s c []| < π / 2 := by intro s c; rw [sphere_clenshaw]; simp; positivity
+  refine ⟨⟨c0 _ _, by show |serA [] (1 / 2)| < _; rw [sphere_serA]; exact h12⟩, ⟨c0 _ _, by show |serA [] (1 / 2)| < _; rw [sphere_serA]; exact h12⟩, ?_, one_ne_zero, c0 _ _, ?_, ?_, c0 _ _, ?_, ?_, ?_, ?_⟩
+  · exact cos_ne_zero_of_abs_lt h12
+  · show -π < serA [] (1 / 2) ∧ serA [] (1 / 2) ≤ π; rw [sphere_serA]; constructor <;> linarith
+  · show |serA [] (1 / 2)| ≤ π / 2; rw [sphere_serA]; exact h12.le
+  · show serA [] (serA [] (1 / 2)) = serA [] (1 / 2); rw [sphere_serA]
+  · show serA [] (serA [] (1 / 2)) = serA [] (1 / 2); rw [sphere_serA]
+  · show serA [] (serA [] (1 / 2)) = 1 / 2; rw [sphere_serA, sphere_serA]
+  · show dmudpsiS sphereParams (sin (serA [] (1 / 2)), cos (serA [] (1 / 2))) (sin (serA [] (1 / 2)), cos (serA [] (1 / 2))) ≠ 0
+    rw [sphere_serA, sphere_dmudpsi _ h12]; exact cos_ne_zero_of_abs_lt h12
+
+/-- `Math::sincosd` on `[−90, 90]` as modelled is the sine and cosine of the angle in degrees (all special cases 30°, 45°, 60°) -/
+theorem sincosd90_spec (x : ℝ) (hx : |x| ≤ 90) : sincosd90 x = (sin (x * (π / 180)), cos (x * (π / 180))) := sincosd90_real x hx
+
+/-- `Math::atan2d` as modelled is the argument of `(x, y)` in degrees (octant logic: C16 `atan2d_octant`) -/
+theorem atan2d_spec (y x : ℝ) (h : ¬ (x = 0 ∧ y = 0)) : atan2d y x = GeoVerif.Props.C16.argd y x := atan2d_real y x h
+
+/-! ### exact path: the remaining divided-difference helpers -/
+
+/-- `Dsin(x, y) · (x − y) = sin x − sin y`; confluent value `cos x` -/
+theorem Dsin_dd (x y : ℝ) : Dsin x y * (x - y) = sin x - sin y := dsin_dd x y
+theorem Dsin_confluent (x : ℝ) : Dsin x x = cos x := dsin_confluent x
+
+/-- confluent value of `Dh`: `h′(t) = t (2 + t²) / (2 (1 + t²)^{3/2})` (all three branches of the code at `x = y`) -/
+theorem Dh_confluent (x : ℝ) : Dh x x = x * (2 + x ^ 2) / (2 * sc x ^ 3) := dh_confluent x
+
+/-- **`DParametric` is the divided difference of the parametric latitude**: for all tangents `tx, ty` (opposite signs, the addition-theorem
+    branch `tx ty ≤ 1`, the reciprocal branch `tx ty > 1`, equal arguments), with `e2m1 = (1 − f)²`, `1 − f > 0`:
+    `DParametric · (atan ty − atan tx) = atan((1−f) ty) − atan((1−f) tx)` -/
+theorem DParametric_dd (fm1 tx ty : ℝ) (hf : 0 < fm1) :
+    DParametric fm1 (fm1 * fm1) tx ty * (Real.arctan ty - Real.arctan tx) = Real.arctan (fm1 * ty) - Real.arctan (fm1 * tx) :=
+  dparametric_dd fm1 tx ty hf
+
+/-- confluent value in both sub-branches (`t² ≤ 1` and the reciprocal form for `t² > 1`, where seeded change C09E put the wrong denominator):
+    `dβ/dφ = (1−f)(1 + t²)/(1 + (1−f)² t²)`, `t = tan φ` -/
+theorem DParametric_confluent (fm1 t : ℝ) (hf : 0 < fm1) :
+    DParametric fm1 (fm1 * fm1) t t = fm1 * (1 + t ^ 2) / (1 + fm1 ^ 2 * t ^ 2) := dparametric_confluent fm1 t hf
+
+example : (0:ℝ) < 1 - 1 / 298 := by norm_num
+
+/-- `Datanhee`, prolate ellipsoid (`f < 0`): divided difference of `atan(e sin φ)/e` with respect to `tan φ` (no division by `e`) -/
+theorem Datanhee_prolate_dd (f e e1 fm1 x y : ℝ) (hf : f < 0) :
+    e * (Datanhee f e e1 fm1 x y * (y - x)) = Real.arctan (e * sn y) - Real.arctan (e * sn x) := datanhee_prolate f e e1 fm1 x y hf
+
+/-- `Datanhee`, oblate ellipsoid or sphere (`f ≥ 0`): divided difference of `asinh(e′ sin β)/(e′(1−f))` `(= atanh(e sin φ)/e)` -/
+theorem Datanhee_oblate_dd (f e e1 fm1 x y : ℝ) (hf : ¬ f < 0) :
+    e1 * fm1 * (Datanhee f e e1 fm1 x y * (y - x)) = Real.arsinh (e1 * sn (fm1 * y)) - Real.arsinh (e1 * sn (fm1 * x)) :=
+  datanhee_oblate f e e1 fm1 x y hf
+
+/-- **`DIsometric` is the divided difference of the isometric latitude** with respect to the geographic latitude, oblate form
+    `ψ(t) = asinh t − e asinh(e′ sn((1−f) t))`, `t = tan φ` (hypotheses: the constructor's relations `e² = e·e`, `e = e′(1−f)`) -/
+theorem DIsometric_oblate_dd (f e2 e e1 fm1 tx ty : ℝ) (hf : ¬ f < 0) (he2 : e2 = e * e) (he : e = e1 * fm1) :
+    DIsometric f e2 e e1 fm1 tx ty * (Real.arctan ty - Real.arctan tx) = psiOblate e e1 fm1 ty - psiOblate e e1 fm1 tx :=
+  disometric_oblate f e2 e e1 fm1 tx ty hf he2 he
+
+/-- prolate form `ψ(t) = asinh t + e atan(e sn t)` with `e = √|e²|`, `e² = −e·e` -/
+theorem DIsometric_prolate_dd (f e2 e e1 fm1 tx ty : ℝ) (hf : f < 0) (he2 : e2 = -(e * e)) :
+    DIsometric f e2 e e1 fm1 tx ty * (Real.arctan ty - Real.arctan tx) = psiProlate e ty - psiProlate e tx :=
+  disometric_prolate f e2 e e1 fm1 tx ty hf he2
+
+example : ¬ ((1:ℝ) / 298 < 0) := by norm_num
+
+/-! ### `DE` (elliptic integral of the second kind), parametric in the Carlson kernels -/
+
+/-- for **every** pair of kernels `RF`, `RD`: `DE(X, Y) = DE(Y, X)` (a divided difference is symmetric; `d ↦ −d`, `t ↦ −t`, `sin z ↦ −sin z`) -/
+theorem DE_symmetric (RF RD : ℝ → ℝ → ℝ → ℝ) (E : Ell ℝ) (X Y : Ang ℝ) : DE RF RD E X Y = DE RF RD E Y X := de_symmetric RF RD E X Y
+
+/-- the pair `(sin z, cos z)` formed from `t = tan(z/2)` handed to the kernels lies on the unit circle -/
+theorem DE_unit_circle (RF RD : ℝ → ℝ → ℝ → ℝ) (k2 den d Dt sx sy : ℝ) :
+    (deTail RF RD k2 den d Dt sx sy).sz ^ 2 + (deTail RF RD k2 den d Dt sx sy).cz ^ 2 = 1 := deTail_unit RF RD k2 den d Dt sx sy
+
+/-- confluent value on an oblate ellipsoid, for every kernel pair with `RF(1, 1, 1) = 1`: `DE(X, X) = √(1 + e′² sin²x)`, the integrand of
+    `E`.  (The addition theorem DLMF 19.11.2 itself — that `DE` is the divided difference of `E` for `X ≠ Y` — is in the trusted base and is
+    checked against quadrature by the harness, relation `dd-elliptic`.) -/
+theorem DE_confluent (RF RD : ℝ → ℝ → ℝ → ℝ) (E : Ell ℝ) (x : ℝ) (hf : ¬ E.f < 0) (he : 0 ≤ E.e12) (hx0 : 0 < x) (hx1 : x < π / 2)
+    (hRF : RF 1 1 1 = 1) :
+    DE RF RD E (sin x, cos x) (sin x, cos x) = Real.sqrt (1 + E.e12 * sin x ^ 2) := de_confluent RF RD E x hf he hx0 hx1 hRF
+
+example : ∃ RF : ℝ → ℝ → ℝ → ℝ, RF 1 1 1 = 1 := ⟨fun _ _ _ => 1, rfl⟩
+
+/-! ### `DRectifying` around its kernels -/
+
+/-- **chain rule**, same-sign distinct latitudes: for every kernel for which `DE` is the divided difference of some `Eint` in the parametric latitude
+    `β = atan((1−f) tan φ)`: `DRectifying · (φ₂ − φ₁) = (b/R)(Eint β₂ − Eint β₁)` (uses `DParametric_dd`) -/
+theorem DRectifying_chain (RF RD : ℝ → ℝ → ℝ → ℝ) (E : Ell ℝ) (K : RectK ℝ) (a b : ℝ) (Eint : ℝ → ℝ)
+    (ha : |a| < π / 2) (hb : |b| < π / 2) (hab : a ≠ b) (hsign : ¬ a * b < 0) (hfm1 : 0 < E.fm1) (he2m1 : E.e2m1 = E.fm1 * E.fm1)
+    (hDE : DE RF RD E (parametric E (sin a, cos a)) (parametric E (sin b, cos b))
+             * (Real.arctan (E.fm1 * Real.tan b) - Real.arctan (E.fm1 * Real.tan a))
+           = Eint (Real.arctan (E.fm1 * Real.tan b)) - Eint (Real.arctan (E.fm1 * Real.tan a))) :
+    DRectifying RF RD E K (sin a, cos a) (sin b, cos b) * (b - a)
+      = E.b / K.rr * (Eint (Real.arctan (E.fm1 * Real.tan b)) - Eint (Real.arctan (E.fm1 * Real.tan a))) :=
+  drectifying_chain RF RD E K a b Eint ha hb hab hsign hfm1 he2m1 hDE
+
+/-- the hypothesis of `DRectifying_chain` is satisfiable: the constant kernels `RF = RD = 0` give `DE = 0`, the divided difference of a constant -/
+example (E : Ell ℝ) (a b : ℝ) :
+    DE (fun _ _ _ => 0) (fun _ _ _ => 0) E (parametric E (sin a, cos a)) (parametric E (sin b, cos b)) * 0 = (fun _ : ℝ => (0:ℝ)) 1 - (fun _ : ℝ => (0:ℝ)) 2 := by simp
+
+/-- opposite signs: the plain quotient of the rectifying latitudes supplied by `AuxLatitude::Rectifying` -/
+theorem DRectifying_opposite (RF RD : ℝ → ℝ → ℝ → ℝ) (E : Ell ℝ) (K : RectK ℝ) (a b : ℝ)
+    (ha : |a| < π / 2) (hb : |b| < π / 2) (hsign : a * b < 0) :
+    DRectifying RF RD E K (sin a, cos a) (sin b, cos b) * (b - a) = radians K.mu2 - radians K.mu1 :=
+  drectifying_opposite RF RD E K a b ha hb hsign
+
+/-- confluent case: `dμ/dφ = (d tan μ/d tan φ) cos²μ / cos²φ` with `d tan μ/d tan φ` the `diff` output of `Rectifying` -/
+theorem DRectifying_confluent (RF RD : ℝ → ℝ → ℝ → ℝ) (E : Ell ℝ) (K : RectK ℝ) (a m : ℝ)
+    (ha : |a| < π / 2) (hm : |m| < π / 2) (hmu : K.mu1 = (sin m, cos m)) :
+    DRectifying RF RD E K (sin a, cos a) (sin a, cos a) = K.d1 * (cos m / cos a) ^ 2 := drectifying_confluent RF RD E K a m ha hm hmu
 
 /-! ### the series-mode area table (re-extracted from `Rhumb::AreaCoeffs` on this run): shape only
 
